@@ -7,11 +7,16 @@
    in order (enabled when it has finished; stops with a failure if it failed), then the
    body's commands one at a time (stop at the first failing command), then Close.
    ManagerWait returns when every registered task has finished and reports an error
-   iff some task failed. *)
+   iff some task failed.
+   A task is identified by its FULL name (namespace + short name); tasks 1 and 2 carry
+   the same short name in different namespaces.  Variant "shortkey" (regression) lets the
+   runner tick off every prerequisite with the same SHORT name once one of them has been
+   waited for: StartsAfterPrereqs must fail. *)
 EXTENDS Naturals, Sequences, FiniteSets, TLC
 
 CONSTANTS N, NCmds, Variant
 Tasks == 1..N
+Short(t) == IF t <= 2 THEN 1 ELSE t        \* the short name: tasks 1 and 2 share it (different namespaces)
 VARIABLES wait, failAt,        \* fixed after Init: wait lists; failAt[t] = index of the failing command or 0
           submitted, accepted, registered, pcw, cmd, finished, failed, started, running, mwait
 vars == <<wait, failAt, submitted, accepted, registered, pcw, cmd, finished, failed, started, running, mwait>>
@@ -32,7 +37,8 @@ Submit == /\ submitted < N /\ mwait = "no"
 \* the runner of an accepted task waits for its prerequisites one by one
 WaitFor(t, w) == /\ t \in accepted /\ t \notin finished /\ t \notin started /\ w \in wait[t] \ pcw[t] /\ w \in finished
                  /\ IF w \in failed THEN finished' = finished \cup {t} /\ failed' = failed \cup {t} /\ UNCHANGED pcw
-                    ELSE pcw' = [pcw EXCEPT ![t] = @ \cup {w}] /\ UNCHANGED <<finished, failed>>
+                    ELSE pcw' = [pcw EXCEPT ![t] = @ \cup (IF Variant = "shortkey" THEN { x \in wait[t] : Short(x) = Short(w) } ELSE {w})]
+                         /\ UNCHANGED <<finished, failed>>
                  /\ UNCHANGED <<wait, failAt, submitted, accepted, registered, cmd, started, running, mwait>>
 Begin(t) == /\ t \in accepted /\ t \notin finished /\ pcw[t] = wait[t] /\ t \notin running /\ cmd[t] < NCmds
             /\ (cmd[t] > 0 => t \in started)
